@@ -12,7 +12,7 @@ LEVEL = "exploration"
 RULE = (
     "Hypothesis-constructed lifetime shapes (nested loops with loop-carried variables, values live across 1-3 levels "
     "of calls incl. register-less intermediate functions, long expressions, k simultaneously live locals for k "
-    "straddling 16, register-held device ids, list-loop bodies) x {inline, push/pop, remove_labels}; oracle: "
+    "straddling 16, register-held device ids, list-loop bodies, programs split over library modules, directly recursive functions [rejected today; if ever accepted they are compared with the reference interpreter]) x {inline, push/pop, remove_labels}; oracle: "
     "provenance tags on the reference machine - with the virtual register names exported by the PYTRAPIC_VERIF hook, "
     "every executed register read must find the tag of the virtual register that operand denotes (a clobber that was "
     "actually read); plus a token scan (only r0-r15, sp, ra) and: a program is either rejected with the "
@@ -82,6 +82,13 @@ def check_case(case, stats=None, K=oracle.K_QUICK):
             c = tm.clobbers[0]
             sig = oracle.clobber_signature(c)
             raise Violation(sig + oracle.clobber_shape_suffix(srcs, sig), {"opts": opts, "env_seed": es, "clobber": c, "code": res["code"]})
+        if case.get("differential"):
+            # activations of one function share virtual names, so tags cannot tell them apart: compare with
+            # the reference interpreter instead
+            r = oracle.diff_run(srcs, opts, es, case["pool"], K, res=res)
+            if r["kind"] in ("mismatch", "vmerror"):
+                raise Violation("C04:clobber:across-activations-of-one-function", {"opts": opts, "env_seed": es, "code": res["code"],
+                                "compare": r.get("detail"), "error": r.get("error")})
         if stats is not None:
             shared = sum(1 for s in tm.phys_share.values() if len(s) >= 2)
             if len(tm.virtuals) >= 6 and shared >= 1 and (m.calls_executed or m.backjumps):
@@ -204,8 +211,41 @@ def multiline_lifetimes(draw):
 
 
 @st.composite
+def recursive(draw):
+    """a directly recursive function with a value that is needed after the inner call returns.  Registers
+    are static per function, so such a program is either rejected or must keep each activation's values
+    apart; bounded depth (the argument is clamped)."""
+    npar = draw(st.integers(1, 2))
+    ps = ["n", "k"][:npar]
+    op = draw(st.sampled_from(["*", "+", "-"]))
+    L = [programs.HDR.rstrip("\n"), f"def rec({', '.join(ps)}):", "    if n <= 1:", f"        return {draw(st.sampled_from(['1', 'n', 'd1.Setting']))}"]
+    inner = "rec(n - 1" + (", k + 1)" if npar == 2 else ")")
+    shape = draw(st.integers(0, 2))
+    if shape == 0:
+        L.append(f"    return n {op} {inner}")
+    elif shape == 1:
+        L += [f"    t = n * 2 + {draw(st.integers(0, 5))}", f"    r = {inner}", f"    return t {op} r" + (" + k" if npar == 2 else "")]
+    else:
+        L += [f"    r = {inner}", f"    d2.Setting = n", f"    return r {op} n"]
+    arg = draw(st.sampled_from(["min(max(d0.Setting, 0), 4)", "3", "4", "min(max(d3.On + 2, 0), 3)"]))
+    L += ["while True:", f"    db.Setting = rec({arg}" + (", 1)" if npar == 2 else ")"), "    yield_()"]
+    return {"src": {"": "\n".join(L) + "\n"}, "env_seeds": [draw(st.integers(0, 2**31 - 1))], "pool": compare.DEFAULT_POOL,
+            "family": "recursive", "differential": True}
+
+
+@st.composite
 def cases(draw):
-    k = draw(st.integers(0, 10))
+    k = draw(st.integers(0, 11))
+    if k == 11 and draw(st.integers(0, 3)) == 0:
+        c = draw(recursive())
+        c["opts"] = VECS[draw(st.integers(0, len(VECS) - 1))]
+        return c
+    if k == 11:
+        # library modules: module globals and functions of several files share the 16 registers
+        from . import c13
+        mc = draw(c13.cases())
+        return {"src": c13.render(mc)[0], "env_seeds": mc["env_seeds"], "pool": compare.DEFAULT_POOL, "family": "modules",
+                "opts": VECS[draw(st.integers(0, len(VECS) - 1))]}
     if k == 10:
         c = draw(multiline_lifetimes())
         c["opts"] = VECS[draw(st.integers(0, len(VECS) - 1))]
